@@ -161,7 +161,7 @@ func randOps(rnd *rand.Rand, cat *Catalog, steps int, profile string, honest boo
 			case 0:
 				mt = "other"
 			case 1:
-				mt = pick([]string{"image", "index", "other2"})
+				mt = pick([]string{"image", "index", "other2", "other3", "other3"})
 			}
 			if v, ok := c.As[mt]; ok && rnd.Intn(4) != 0 {
 				for _, b := range v.Blobs {
